@@ -176,7 +176,7 @@ PROPS["C19"] = {
     "groups": [
         {"id": "skeletons",
          "quick": ["c19::c19_chain2", "c19::c19_star2", "c19::c19_chain3", "c19::c19_mixed3_late_clone",
-                   "c19::c19_borrowed_only", "c19::c19_clone_end_clone", "c19::c19_chain2_caller_waker_dropped_first",
+                   "c19::c19_borrowed_only", "c19::c19_clone_end_clone", "c19::c19_chain2_caller_waker_dropped_first", "c19::c19_chain2_waker_without_data_pointer",
                    "c19::c19_future_object_chain2", "c19::c19_future_object_star2",
                    "c19::c19_negative_twin"],
          "cbmc_args": LEAK, "timeout": 1800},
